@@ -170,7 +170,12 @@ def _one_call(samp, case, prior):
         with warnings.catch_warnings():
             warnings.simplefilter("ignore")  # divide-by-zero of an empty trial mask is handled by the bisection
             try:
-                out["mask"] = samp.poisson(tuple(case["shape"]), case["accel"], **_kwargs(case))
+                if case.get("positional"):
+                    # documented order poisson(img_shape, accel, calib, dtype, crop_corner, return_density, seed, max_attempts, tol)
+                    out["mask"] = samp.poisson(tuple(case["shape"]), case["accel"], tuple(case["calib"]),
+                                               np.dtype(case["dtype"]).type, case["crop"], False, case["seed"], 30, case["tol"])
+                else:
+                    out["mask"] = samp.poisson(tuple(case["shape"]), case["accel"], **_kwargs(case))
                 out["kind"] = "mask"
             except _NonTermination:
                 out["kind"] = "hang" if counted else "inconclusive"
@@ -385,7 +390,8 @@ def st_case(draw):
     if prior2 == prior:  # the second call must start from another global RNG state
         prior2 = dict(prior2, draws=prior2["draws"] + 1)
     return {"shape": [ny, nx], "accel": accel, "calib": calib, "tol": tol, "seed": seed, "crop": crop,
-            "dtype": dtype, "use_defaults": use_defaults, "prior": prior, "prior2": prior2}
+            "dtype": dtype, "use_defaults": use_defaults, "prior": prior, "prior2": prior2,
+            "positional": draw(st.sampled_from([False, False, True]))}
 
 
 PARTS = [Part("poisson", check_case, {"quick": 1200, "thorough": 8000}, strategy=st_case)]
